@@ -1,0 +1,66 @@
+//! Verification hooks for the syncer. Adds no behaviour.
+
+use std::sync::Arc;
+use std::time::Duration;
+
+use celestia_types::ExtendedHeader;
+use tokio::sync::broadcast;
+
+use super::{Syncer, SyncerArgs, SyncerError, SyncingInfo};
+use crate::block_ranges::BlockRange;
+use crate::p2p::verif_p2p::P2pHandle;
+use crate::store::Store;
+use crate::verif::Events;
+
+/// A running `Syncer`.
+pub struct SyncerHandle<S: Store + 'static>(Syncer<S>);
+
+/// Starts the real syncer worker.
+pub fn start_syncer<S: Store + 'static>(
+    p2p: &P2pHandle,
+    store: Arc<S>,
+    events: &Events,
+    batch_size: u64,
+    sampling_window: Duration,
+    pruning_window: Duration,
+) -> Result<SyncerHandle<S>, SyncerError> {
+    Syncer::start(SyncerArgs {
+        p2p: p2p.0.clone(),
+        store,
+        event_pub: events.publisher(),
+        batch_size,
+        sampling_window,
+        pruning_window,
+    })
+    .map(SyncerHandle)
+}
+
+#[allow(missing_docs)]
+impl<S: Store + 'static> SyncerHandle<S> {
+    pub fn stop(&self) {
+        self.0.stop()
+    }
+
+    pub async fn join(&self) {
+        self.0.join().await
+    }
+
+    pub async fn info(&self) -> Result<SyncingInfo, SyncerError> {
+        self.0.info().await
+    }
+
+    pub async fn subscribe_headers(
+        &self,
+    ) -> Result<broadcast::Receiver<ExtendedHeader>, SyncerError> {
+        self.0.subscribe_headers().await
+    }
+}
+
+/// The syncer's batch selection.
+pub fn calculate_range_to_fetch(
+    subjective_head_height: u64,
+    synced_headers: &[BlockRange],
+    limit: u64,
+) -> BlockRange {
+    super::calculate_range_to_fetch(subjective_head_height, synced_headers, limit)
+}
